@@ -142,6 +142,8 @@ def tool_cmd(sc, tools):
         return [tools["unzck"], "--dict", "arch.zck"], "input=arch.zck;output=arch.zdict", {}
     if k == "t-read_header-f":
         return [tools["zck_read_header"], "-f", "arch.zck"], "input=arch.zck", {}
+    if k == "t-unzck-header":
+        return [tools["unzck"], "--header", "arch.zck"], "input=arch.zck;output=arch.zhr", {}
     if k == "t-zckdl":
         return [tools["zckdl"], "-s", "A.zck", sc["url"]], "target=tgt.zck;source=A.zck", {"no_proxy": "*", "NO_PROXY": "*"}
     raise ValueError(k)
@@ -149,7 +151,7 @@ def tool_cmd(sc, tools):
 
 CLASS_PATHS = {"t-zck": {"input": "in.dat", "output": "out.zck"}, "t-unzck": {"input": "arch.zck", "output": "arch"},
                "t-unzck-c": {"input": "arch.zck", "stdout": "stdout.bin"}, "t-unzck-dict": {"input": "arch.zck", "output": "arch.zdict"},
-               "t-read_header-f": {"input": "arch.zck"}, "t-zckdl": {"target": "tgt.zck", "source": "A.zck"}}
+               "t-read_header-f": {"input": "arch.zck"}, "t-unzck-header": {"input": "arch.zck", "output": "arch.zhr"}, "t-zckdl": {"target": "tgt.zck", "source": "A.zck"}}
 ST_TRACE = "trace=read,write,lseek,pread64,pwrite64,readv,writev,ftruncate"
 ST_RE = None
 
@@ -159,7 +161,7 @@ def run_tool(sc, tools, cdir, fault, preload, probe_strace_cls=None):
     which libc entry point the tool uses), 'P' = LD_PRELOAD shim (short counts with real partial transfer, temp files, double faults)."""
     import re
     os.makedirs(cdir, exist_ok=True)
-    for fn in ("out.zck", "arch", "arch.zdict", "stdout.bin", "pl.log", "st.log", "tgt.zck"):
+    for fn in ("out.zck", "arch", "arch.zdict", "arch.zhr", "stdout.bin", "pl.log", "st.log", "tgt.zck"):
         try:
             os.unlink(os.path.join(cdir, fn))
         except FileNotFoundError:
@@ -239,6 +241,12 @@ def judge_tool(sc, r, cdir, fault):
         out = rd("arch.zdict")
         if out != sc["_dict"]:
             return ("c12:tool-exit0-but-output-incomplete:" + tag, "unzck --dict exit 0; dictionary %s bytes of %d" % (None if out is None else len(out), len(sc["_dict"])))
+    elif k == "t-unzck-header":
+        out = rd("arch.zhr")
+        pb = zckref.parse(sc["_B"])
+        want = zckref.MAGIC_HDR + sc["_B"][5:pb.header_len + pb.chunks[0]["comp_len"]]
+        if out != want:
+            return ("c12:tool-exit0-but-output-incomplete:" + tag, "unzck --header exit 0; detached header %s bytes, expected %d" % (None if out is None else len(out), len(want)))
     elif k == "t-zckdl":
         out = rd("tgt.zck")
         if out != sc["_B"]:
@@ -318,7 +326,7 @@ class C12(core.Check):
     level = "fault_enumeration"
     flavours = ["asan", "plain"]
     rule = ("scenarios: library write (none / zstd / zstd+dict, auto and manual chunking), read, validate-all, validate-data, find-valid, chunk data, copy_chunks, "
-            "update procedure; tools zck (plain, -m -s, -u), unzck, unzck -c, unzck --dict, zck_read_header -f, zckdl -s (against the loopback range server).  Per scenario the fault-free run counts calls per "
+            "update procedure; tools zck (plain, -m -s, -u), unzck, unzck -c, unzck --dict, unzck --header, zck_read_header -f, zckdl -s (against the loopback range server).  Per scenario the fault-free run counts calls per "
             "(descriptor class in {input, output, temp, source, target, stdout} x {read, write, lseek, ftruncate}); EVERY k-th call x every fault kind "
             "{EIO, ENOSPC, EINTR, short with real partial transfer of 0/1/3/5 bytes, read()=0} is executed (exhaustive per scenario). distinct = (scenario, fault)")
     assumptions = ["every byte moves through read/write/lseek/ftruncate on classified descriptors (grep over src/)", "(INJECTED) log lines prove each fault fired",
@@ -380,6 +388,7 @@ class C12(core.Check):
             scs.append(dict(base, name="t-unzck-c-c%d" % comp, kind="t-unzck-c"))
             scs.append(dict(base, name="t-unzck-dict-c%d" % comp, kind="t-unzck-dict"))
             scs.append(dict(base, name="t-read_header-f-c%d" % comp, kind="t-read_header-f"))
+            scs.append(dict(base, name="t-unzck-header-c%d" % comp, kind="t-unzck-header"))
             wd = os.path.join(ctx["www"], "c12-c%d" % comp)
             os.makedirs(wd, exist_ok=True)
             open(os.path.join(wd, "tgt.zck"), "wb").write(B)
